@@ -68,15 +68,14 @@ Proof.
   rewrite <- firstn_upd_lt by lia. rewrite firstn_firstn. f_equal. lia.
 Qed.
 
-Lemma remove_idx_spec : forall s z keep s' r, wf s -> nact_ok (abs s) -> remove_idx s z keep = (s', r) ->
+Lemma remove_idx_spec : forall s z keep s' r, wf s -> remove_idx s z keep = (s', r) ->
   wf s' /\ oob s' = oob s /\ tab s' = tab s /\ nlook s' = nlook s /\
   if valid_idx (abs s) z && negb (refused (abs s) keep)
   then r = removed_result (abs s) (Z.to_nat z) keep /\ abs s' = aremove (abs s) (Z.to_nat z) keep
   else r = RFail /\ s' = s.
 Proof.
-  intros s z keep s' r Hwf Hna H. pose proof (abs_len s Hwf) as HL. destruct Hwf as [Hm Ht].
-  unfold nact_ok in Hna. rewrite HL in Hna. change (aNact (abs s)) with (sNact s) in Hna.
-  unfold remove_idx in H. unfold valid_idx, refused, removed_result, aremove, dec_nact. rewrite HL.
+  intros s z keep s' r Hwf H. pose proof (abs_len s Hwf) as HL. destruct Hwf as [Hm Ht].
+  unfold remove_idx in H. unfold valid_idx, refused, removed_result, aremove, dec_nact, clamp_nact. rewrite HL.
   change (aNvar (abs s)) with (sNvar s). change (atree (abs s)) with (tree s).
   change (aNact (abs s)) with (sNact s). change (aps (abs s)) with (firstn (sN s) (mem s)).
   destruct ((Z.of_nat (sN s) <=? z) || (z <? 0))%Z eqn:E1.
@@ -110,28 +109,22 @@ Proof.
       repeat split; auto; try (rewrite chk_in; lia).
       unfold abs; cbn. f_equal.
       rewrite firstn_upd_lt by lia. f_equal. now rewrite nth_firstn_lt by lia.
-    + destruct (z <? sNact s)%Z eqn:E5.
-      * inversion H; subst; clear H. unfold wf; cbn. rewrite !upd_length.
-        repeat split; auto; try lia; try (rewrite !chk_in; lia).
-        unfold abs; cbn. f_equal.
-        rewrite swap_abs by (rewrite ?upd_length; lia). f_equal.
-        rewrite firstn_upd_lt by lia. f_equal. now rewrite nth_firstn_lt by lia.
-      * inversion H; subst; clear H. unfold wf; cbn. rewrite upd_length.
-        repeat split; auto; try lia; try (rewrite !chk_in; lia).
-        unfold abs; cbn. f_equal. apply swap_abs; lia.
+    + inversion H; subst; clear H. unfold wf; cbn. rewrite upd_length.
+      repeat split; auto; try lia; try (rewrite !chk_in; lia).
+      unfold abs; cbn. f_equal. apply swap_abs; lia.
 Qed.
 
 Lemma aremove_nact : forall a i keep, i < length (aps a) -> nact_ok a -> nact_ok (aremove a i keep).
 Proof.
-  intros a i keep Hi Hn. unfold aremove, dec_nact, nact_ok in *.
+  intros a i keep Hi Hn. unfold aremove, dec_nact, clamp_nact, nact_ok in *.
   destruct ((length (aps a) =? 1) && negb (atree a)) eqn:E1.
   { cbn. destruct (Z.of_nat i <? aNact a)%Z eqn:E; lia. }
   destruct keep.
   { cbn. rewrite remove_nth_length by auto. destruct (Z.of_nat i <? aNact a)%Z eqn:E; lia. }
   destruct (atree a).
   { cbn. rewrite upd_length. auto. }
-  destruct (Z.of_nat i <? aNact a)%Z eqn:E; cbn; unfold remove_swap;
-    rewrite firstn_length, !upd_length; lia.
+  cbn. unfold remove_swap. rewrite firstn_length, upd_length.
+  destruct (Z.of_nat (length (aps a) - 1) <? aNact a)%Z eqn:E; lia.
 Qed.
 
 Lemma set_hash_spec : forall s i h s' r, wf s -> set_hash s i h = (s', r) ->
